@@ -68,6 +68,10 @@ ASSUMPTIONS = [
 ]
 
 P_SLOTS = 3
+_LAMBDA = 1 - 1e-5
+RHO_NEAR_UNIT = _LAMBDA * (1 - 0.2 * _LAMBDA)     # puts a root of the linear model's x-equation at 1 - 1e-5
+TOL_EIG = 1e-3
+TOL_EQ = 1e-9
 
 # ---------------------------------------------------------------------------
 # value tables (rotated by the seed; the seed never selects a subset)
@@ -165,15 +169,15 @@ def diff_fields(got, exp, exact, fields=None):
 # ---------------------------------------------------------------------------
 
 class SimKind:
-    """Simultaneous models.  Variant reference = (rho, c, std, steady_with, solved_with)
-    steady_with = None | (rho, c) ; solved_with = None | (rho, c, steady_with at that time | None)"""
+    """Simultaneous models.  Object reference = (provenance, description, variants, settings); settings = sorted
+    tuple of (tolerance key, value) overrides.  Variant reference = (rho, c, std, steady_with, solved_with)
+    steady_with = None | (rho, c) ; solved_with = None | (rho, c, steady_with at that time | None, settings at that time)"""
     family = "sim"
 
     def __init__(self, name, src, kwargs, second, solve_uses_steady):
         self.name, self.src, self.kwargs, self.second = name, src, kwargs, second
         self.solve_uses_steady = solve_uses_steady
         self.default_std = 1 if kwargs.get("linear") else 0.01
-        self.flags = (bool(kwargs.get("linear")), bool(kwargs.get("flat")), bool(kwargs.get("deterministic")))
 
     # -- construction -----------------------------------------------------
     def build(self):
@@ -188,6 +192,12 @@ class SimKind:
         out = [base,
                base + [("steady",), ("solve",)],
                base + [("alter", 2), ("assign", "rho", [r[0], r[1]]), ("steady",), ("solve",)]]
+        if self.name == "lin":
+            # a model that carries its own tolerance setting AND whose behaviour depends on it: the root 1-1e-5 is a unit
+            # root under the overridden eigenvalue tolerance and a stable root under the default one (classification,
+            # Kalman initialisation)
+            out.append([("assign", "rho", RHO_NEAR_UNIT), ("assign", "c", c[0]), ("tol", "eigenvalue", TOL_EIG),
+                        ("steady",), ("solve",)])
         if not quick:
             out.append(base + [("alter", 3), ("assign", "c", [c[0], c[1], c[2]]), ("steady",)])
         return out
@@ -197,7 +207,9 @@ class SimKind:
         ops = [("assign", "rho", r[1]), ("assign", "rho", [r[2], r[1]]), ("assign", "std_shk_x", s),
                ("alter", 1), ("alter", 2), ("alter", 3), ("steady",)]
         if not quick or self.name == "lin":
-            ops += [("descr", "d1")]
+            ops += [("descr", "d1"), ("tol", "eigenvalue", TOL_EIG)]
+        if not quick and self.name == "nl":
+            ops += [("tol", "equality", TOL_EQ)]
         if not quick:
             ops += [("assign", "c", c[1]), ("assign", "c", [c[0], c[1], c[2], c[1]])]
         # the first-order solution of a non-linear model needs a steady state to expand around
@@ -207,14 +219,18 @@ class SimKind:
 
     # -- reference ----------------------------------------------------------
     def ref_apply(self, obj, op):
-        prov, descr, vs = obj
+        prov, descr, vs, st = obj
         name = op[0]
         if name == "descr":
-            return (prov, op[1], vs)
+            return (prov, op[1], vs, st)
+        if name == "tol":
+            d = dict(st)
+            d[op[1]] = op[2]
+            return (prov, descr, vs, tuple(sorted(d.items())))
         if name == "alter":
             n = op[1]
             vs = vs[:n] if n <= len(vs) else vs + (vs[-1],) * (n - len(vs))
-            return (prov, descr, vs)
+            return (prov, descr, vs, st)
         new = []
         for k, v in enumerate(vs):
             rho, c, std, sw, so = v
@@ -233,11 +249,11 @@ class SimKind:
             elif name == "steady":
                 sw = (rho, c)
             elif name == "solve":
-                so = (rho, c, sw if self.solve_uses_steady else None)
+                so = (rho, c, sw if self.solve_uses_steady else None, st)
             else:
                 raise KeyError(name)
             new.append((rho, c, std, sw, so))
-        return (prov, descr, tuple(new))
+        return (prov, descr, tuple(new), st)
 
     # -- implementation ----------------------------------------------------
     def impl_apply(self, m, op):
@@ -253,11 +269,14 @@ class SimKind:
             m.solve()
         elif name == "descr":
             m.set_description(op[1])
+        elif name == "tol":
+            m.override_tolerance(**{op[1]: op[2]})
         else:
             raise KeyError(name)
 
-    def drive(self, v):
-        """fresh single-variant model driven directly to the variant reference state"""
+    def drive(self, v, st=()):
+        """fresh single-variant model driven directly to the variant reference state; st = the settings
+        the object carries now (the solution was computed under the settings recorded in solved_with)"""
         rho, c, std, sw, so = v
         m = self.build()
         at = None
@@ -267,12 +286,34 @@ class SimKind:
                 m.steady()
                 at = so[2]
             m.assign(rho=so[0], c=so[1])
+            if so[3]:
+                m.override_tolerance(**dict(so[3]))
             m.solve()
+            if so[3]:
+                m.reset_tolerance()
+        if st:
+            m.override_tolerance(**dict(st))
         if sw is not None and at != sw:
             m.assign(rho=sw[0], c=sw[1])
             m.steady()
         m.assign(rho=rho, c=c, std_shk_x=std)
         return m
+
+    def structure(self, m):
+        """everything the object holds besides its variants, through the public interface"""
+        names, kinds, logly = m.create_qid_to_name(), m.create_qid_to_kind(), m.create_qid_to_logly()
+        return {"flags": (bool(m.is_linear), bool(m.is_flat), bool(m.is_deterministic)),
+                "tolerance": tuple(sorted((k, float(v)) for k, v in dict(m.get_tolerance()).items())),
+                "quantities": tuple(sorted((names[i], kinds[i].name, logly.get(i)) for i in names)),
+                "equations": (tuple(m.get_dynamic_equations()), tuple(m.get_steady_equations())),
+                "shifts": (m.max_lag, m.max_lead),
+                "context": tuple(sorted(k for k in m.get_context() if k != "__builtins__"))}
+
+    def fresh_structure(self, st):
+        m = self.build()
+        if st:
+            m.override_tolerance(**dict(st))
+        return self.structure(m)
 
     # -- observation --------------------------------------------------------
     RAW = ("params", "levels", "changes", "solved", "T", "P", "K", "Z", "H", "D")
@@ -295,6 +336,7 @@ class SimKind:
             vs.append(d)
         if behaviour and all(d["solved"] for d in vs):
             eig = m.get_eigenvalues(unpack_singleton=False)
+            stab = m.get_eigenvalues_stability(unpack_singleton=False)
             db = ir.Databox()
             db["x"] = ir.Series(start=SIM_SPAN[0] - 1, values=(1.5,))
             db[self.second] = ir.Series(start=SIM_SPAN[0] - 1, values=(1.2,))
@@ -310,10 +352,11 @@ class SimKind:
             info = [info] if isinstance(info, dict) else info
             for k, d in enumerate(vs):
                 d["eig"] = np.sort_complex(np.array(eig[k], dtype=complex))
+                names = sorted(str(getattr(x, "name", x)) for x in stab[k])
+                d["stability"] = np.array([names.count(n) for n in ("STABLE", "UNIT_ROOT", "UNSTABLE")] + [len(names)], dtype=float)
                 d["sim"] = np.column_stack([a[:, k] for a in data])
                 d["nll"] = float(info[k]["neg_log_likelihood"])
-        return {"nv": nv, "descr": m.get_description(), "v": vs,
-                "flags": (bool(m.is_linear), bool(m.is_flat), bool(m.is_deterministic))}
+        return {"nv": nv, "descr": m.get_description(), "v": vs, "struct": self.structure(m)}
 
     def view(self, m, k):
         return m[k]
@@ -349,21 +392,21 @@ class SeqKind:
         return ops
 
     def ref_apply(self, obj, op):
-        prov, descr, vs = obj
+        prov, descr, vs, st = obj
         name = op[0]
         if name == "descr":
-            return (prov, op[1], vs)
+            return (prov, op[1], vs, st)
         if name == "alter":
             n = op[1]
-            return (prov, descr, vs[:n] if n <= len(vs) else vs + (vs[-1],) * (n - len(vs)))
+            return (prov, descr, vs[:n] if n <= len(vs) else vs + (vs[-1],) * (n - len(vs)), st)
         idx = {"a": 0, "b": 1}
         if name == "assign":
             i = idx[op[1]]
-            return (prov, descr, tuple(tuple(op[2] if j == i else x for j, x in enumerate(v)) for v in vs))
+            return (prov, descr, tuple(tuple(op[2] if j == i else x for j, x in enumerate(v)) for v in vs), st)
         if name == "vassign":          # through the view model[k]; reference = view semantics
             k, i = op[1], idx[op[2]]
             return (prov, descr, tuple(tuple(op[3] if (j == i and kk == k) else x for j, x in enumerate(v))
-                                       for kk, v in enumerate(vs)))
+                                       for kk, v in enumerate(vs)), st)
         raise KeyError(name)
 
     def impl_apply(self, m, op):
@@ -379,10 +422,18 @@ class SeqKind:
         else:
             raise KeyError(name)
 
-    def drive(self, v):
+    def drive(self, v, st=()):
         m = self.build()
         m.assign(a=v[0], b=v[1])
         return m
+
+    def structure(self, m):
+        return {"lhs_names": tuple(m.lhs_names), "parameter_names": tuple(m.parameter_names),
+                "residual_names": tuple(m.residual_names), "equations": tuple(str(e) for e in m.equation_strings),
+                "shifts": (m.max_lag, m.max_lead), "identities": tuple(m.identity_index)}
+
+    def fresh_structure(self, st):
+        return self.structure(self.build())
 
     RAW = ("params",)
 
@@ -399,7 +450,7 @@ class SeqKind:
             data = [out[n].get_data(SEQ_SPAN) for n in ("y", "q")]
             for k, d in enumerate(vs):
                 d["sim"] = np.column_stack([a[:, k] for a in data])
-        return {"nv": nv, "descr": m.get_description(), "v": vs}
+        return {"nv": nv, "descr": m.get_description(), "v": vs, "struct": self.structure(m)}
 
     def view(self, m, k):
         return m[k]
@@ -436,15 +487,15 @@ class VarKind:
         return [("estimate", 0), ("estimate", 1), ("alter", 1), ("alter", 2), ("alter", 3), ("descr", "d1")]
 
     def ref_apply(self, obj, op):
-        prov, descr, vs = obj
+        prov, descr, vs, st = obj
         name = op[0]
         if name == "descr":
-            return (prov, op[1], vs)
+            return (prov, op[1], vs, st)
         if name == "alter":
             n = op[1]
-            return (prov, descr, vs[:n] if n <= len(vs) else vs + (vs[-1],) * (n - len(vs)))
+            return (prov, descr, vs[:n] if n <= len(vs) else vs + (vs[-1],) * (n - len(vs)), st)
         if name == "estimate":
-            return (prov, descr, tuple((op[1], min(k, 1)) for k in range(len(vs))))
+            return (prov, descr, tuple((op[1], min(k, 1)) for k in range(len(vs))), st)
         raise KeyError(name)
 
     @staticmethod
@@ -466,11 +517,19 @@ class VarKind:
         else:
             raise KeyError(name)
 
-    def drive(self, v):
+    def drive(self, v, st=()):
         m = self.build()
         if v is not None:
             m.estimate(self._db(v[0], [v[1]]), VAR_EST_SPAN)
         return m
+
+    def structure(self, m):
+        return {"endogenous": tuple(m.get_endogenous_names()), "exogenous": tuple(m.get_exogenous_names()),
+                "residuals": tuple(m.get_residual_names()), "order": m.order, "intercept": bool(m.has_intercept),
+                "shifts": (m.max_lag, m.max_lead)}
+
+    def fresh_structure(self, st):
+        return self.structure(self.build())
 
     RAW = ("estimated", "A", "c", "cov")
 
@@ -503,7 +562,7 @@ class VarKind:
             descr = m.get_description()
         except AttributeError:      # a RedVAR that never had set_description called has no description at all
             descr = ""
-        return {"nv": nv, "descr": descr, "v": vs}
+        return {"nv": nv, "descr": descr, "v": vs, "struct": self.structure(m)}
 
     def view(self, m, k):
         return m.get_variant(k)
@@ -532,10 +591,19 @@ def do_clone(how, m):
 
 
 @functools.lru_cache(maxsize=4096)
-def expected_variant(kind_name, v):
+def expected_variant(kind_name, v, st=()):
     """observations of a fresh single-variant model driven to the variant reference state"""
     kind = KINDS[kind_name]
-    return kind.observe(kind.drive(v))["v"][0]
+    return kind.observe(kind.drive(v, st))["v"][0]
+
+
+@functools.lru_cache(maxsize=256)
+def expected_structure(kind_name, st=()):
+    return KINDS[kind_name].fresh_structure(st)
+
+
+def diff_struct(a, b):
+    return [k for k in sorted(set(a) | set(b)) if a.get(k) != b.get(k)]
 
 
 def _where(path):
@@ -563,7 +631,7 @@ class Machine:
     # ---- reference ----------------------------------------------------
     def ref_init(self, init_id, ctx):
         tb = tables(ctx.seed)
-        obj = ("src", "", (self.kind.base_variant(tb),))
+        obj = ("src", "", (self.kind.base_variant(tb),), ())
         for op in self.kind.inits(tb, ctx.quick)[init_id]:
             obj = self.kind.ref_apply(obj, op)
         return (obj,) + (None,) * (P_SLOTS - 1)
@@ -572,7 +640,7 @@ class Machine:
         pop = list(pop)
         if op[0] in CLONES:
             src = pop[op[1]]
-            pop[op[2]] = (op[0], src[1], src[2])
+            pop[op[2]] = (op[0],) + tuple(src[1:])
         else:
             pop[op[1]] = self.kind.ref_apply(pop[op[1]], (op[0],) + tuple(op[2:]))
         return tuple(pop)
@@ -686,16 +754,18 @@ class Machine:
         # ---- (a)+(d) acted-on object equals fresh single-variant models ----
         ref_obj = pop1[acted]
         got = after[acted]
-        exp_flags = getattr(kind, "flags", None)
+        exp_struct = expected_structure(kn, ref_obj[3])
+        ds = diff_struct(got["struct"], exp_struct)
         if got["nv"] != len(ref_obj[2]):
             bad("num_variants", "got %d expected %d" % (got["nv"], len(ref_obj[2])))
-        elif got.get("flags") != exp_flags:
-            bad("flags", "got %r expected %r" % (got.get("flags"), exp_flags))
+        elif ds:
+            bad("structure", "slot %d differs from a fresh model in %s: got %r expected %r" % (
+                acted, ds, got["struct"].get(ds[0]), exp_struct.get(ds[0])), field=ds[0], prov=ref_obj[0])
         elif got["descr"] != ref_obj[1]:
             bad("description", "got %r expected %r" % (got["descr"], ref_obj[1]))
         else:
             for k, v in enumerate(ref_obj[2]):
-                exp = expected_variant(kn, v)
+                exp = expected_variant(kn, v, ref_obj[3])
                 d = diff_fields(got["v"][k], exp, exact=False)
                 if d:
                     bad("state", "variant %d of slot %d differs from a fresh model in %s (e.g. %s: got %r expected %r)" % (
@@ -706,8 +776,12 @@ class Machine:
             s, t = after[op[1]], after[op[2]]
             if objs[op[2]] is objs[op[1]]:
                 bad("clone_identity", "the clone is the same object")
-            if s["nv"] != t["nv"] or s["descr"] != t["descr"] or s.get("flags") != t.get("flags"):
-                bad("clone", "number of variants / description / flags differ", field="nv_descr_flags")
+            ds = diff_struct(s["struct"], t["struct"])
+            if ds:
+                bad("clone", "the clone differs from its source in %s: %r vs %r" % (ds, t["struct"].get(ds[0]), s["struct"].get(ds[0])),
+                    field=ds[0])
+            elif s["nv"] != t["nv"] or s["descr"] != t["descr"]:
+                bad("clone", "number of variants / description differ", field="nv_descr")
             else:
                 for k in range(s["nv"]):
                     d = diff_fields(t["v"][k], s["v"][k], exact=True)
@@ -726,8 +800,10 @@ class Machine:
             elif a["descr"] != b["descr"]:
                 bad("isolation", "slot %d changed its description: %r -> %r" % (i, b["descr"], a["descr"]),
                     field="descr", prov=pop1[i][0])
-            elif a.get("flags") != b.get("flags"):
-                bad("isolation", "slot %d changed its flags" % i, field="flags", prov=pop1[i][0])
+            elif diff_struct(a["struct"], b["struct"]):
+                ds = diff_struct(a["struct"], b["struct"])
+                bad("isolation", "slot %d changed its %s: %r -> %r" % (i, ds, b["struct"].get(ds[0]), a["struct"].get(ds[0])),
+                    field=ds[0], prov=pop1[i][0])
             else:
                 for k in range(a["nv"]):
                     d = diff_fields(a["v"][k], b["v"][k], exact=True)
@@ -801,7 +877,8 @@ class Machine:
     def _matches(self, got, ref_obj):
         if got["nv"] != len(ref_obj[2]):
             return False
-        return all(not diff_fields(got["v"][k], expected_variant(self.kn, v), exact=False) for k, v in enumerate(ref_obj[2]))
+        return all(not diff_fields(got["v"][k], expected_variant(self.kn, v, ref_obj[3]), exact=False)
+                   for k, v in enumerate(ref_obj[2]))
 
 
 EX_LIN = Machine("lin")
@@ -1048,7 +1125,7 @@ def run(ctx, total, info):
     tb = tables(ctx.seed)
     info["alphabet"] = {}
     for kn in KINDS:
-        own = [list(map(str, o)) for o in KINDS[kn].own_ops(("src", "", (KINDS[kn].base_variant(tb),)), tb, ctx.quick)]
+        own = [list(map(str, o)) for o in KINDS[kn].own_ops(("src", "", (KINDS[kn].base_variant(tb),), ()), tb, ctx.quick)]
         if kn == "nl":
             own.append(["solve (once every variant has a steady state)"])
         info["alphabet"][kn] = own + [[c, "i -> first free slot"] for c in CLONES]
